@@ -154,6 +154,13 @@ theorem round_digits_guard (N : ℚ) (d : ℕ) (e : Int) :
     (7 < d → roundSig N d e = .error .diag) ∧ (d ≤ 7 → roundSig 0 d e = .ok 0) :=
   ⟨fun hd => roundSig_guard N d e hd, fun hd => round_zero d e hd⟩
 
+/-- the guard proposed for `digits = 0` changes nothing for the stated digit counts `1..7` (nor for `> 7`),
+    and rejects zero digits -/
+theorem roundSigG_spec (N : ℚ) (d : ℕ) (e : Int) :
+    (1 ≤ d → roundSigG N d e = roundSig N d e) ∧ roundSigG N 0 e = .error .diag := by
+  unfold roundSigG
+  exact ⟨fun h => by rw [if_neg (by omega)], by simp⟩
+
 /-- **round_odd**: for every exponent parameter, and for the exact exponent -/
 theorem round_odd (N : ℚ) (d : ℕ) :
     (∀ e, roundSig (-N) d e = (roundSig N d e).map (fun r => -r)) ∧ roundExact (-N) d = - roundExact N d :=
